@@ -162,16 +162,17 @@ namespace Martian.Typing
 open Martian.Json Martian.Types
 
 /-- the hypothesis of the run-time soundness of a binding: C17's `noHole` at
-every reference; for `split REF` at the type of the whole collection (`t[]` /
-`map<t>`), because that is the destination the resolver is given -/
+every reference; for `split REF` between the parameter type and the ELEMENT type
+of the collection (the keys of a typed map that is split over are not delivered,
+so their legality as file names is not needed) -/
 def bindHoleFreeT (Γ : Env) (t : Ty) : Bind → Bool
   | .plain e => holeFree Γ t (bindExp Γ t e)
   | .split (.arr xs) => xs.toList.all (fun x => holeFree Γ t x)
   | .split (.map _ kvs) => kvs.toList.all (fun kv => holeFree Γ t kv.2)
   | .split e =>
     match refType Γ e with
-    | some (.arr s) => noHole (.arr t) (.arr s)
-    | some (.tmap s) => noHole (.tmap t) (.tmap s)
+    | some (.arr s) => noHole t s
+    | some (.tmap s) => noHole t s
     | _ => true
 
 /-- the struct of outputs a pipeline call delivers, as the run time resolves
